@@ -25,6 +25,7 @@ type watchRoles struct {
 	scopeRun map[*ssa.Function]bool // internal/watch functions Watcher.Run reaches (calls, go, closures)
 	syncRun  map[*ssa.Function]bool // … by synchronous calls only
 	opTable  *ssa.Global            // map[fsnotify.Op]string
+	opFn     *ssa.Function          // or: func(fsnotify.Op) string, a switch over the operations
 	evLoop   *an.Loop               // the loop that receives from fsnotify's Events channel
 	loopFn   *ssa.Function
 	pollFn   *ssa.Function       // helper of the loop that receives the event, when the receive is not in the loop itself
@@ -63,6 +64,20 @@ func resolveWatch(c *an.Ctx) *watchRoles {
 			if m, ok := an.Deref(g.Type()).Underlying().(*types.Map); ok && an.TypeIs(m.Key(), "github.com/fsnotify/fsnotify", "Op") {
 				if b, ok := m.Elem().Underlying().(*types.Basic); ok && b.Kind() == types.String {
 					wr.opTable = g
+				}
+			}
+		}
+	}
+	// … or a function of the package from fsnotify.Op to the name
+	if wr.opTable == nil {
+		for _, f := range p.Funcs {
+			if !wr.inW(f) || f.Parent() != nil || f.Signature.Recv() != nil {
+				continue
+			}
+			sig := f.Signature
+			if sig.Params().Len() == 1 && sig.Results().Len() == 1 && an.TypeIs(sig.Params().At(0).Type(), "github.com/fsnotify/fsnotify", "Op") {
+				if b, ok := sig.Results().At(0).Type().Underlying().(*types.Basic); ok && b.Kind() == types.String {
+					wr.opFn = f
 				}
 			}
 		}
@@ -141,29 +156,52 @@ func resolveWatch(c *an.Ctx) *watchRoles {
 				blocks = append(blocks, b)
 			}
 		}
-		if wr.pollFn != nil {
-			for _, h := range sortedFns(func() map[*ssa.Function]bool {
-				m := map[*ssa.Function]bool{}
-				for h := range p.Reach([]*ssa.Function{wr.pollFn}, func(e an.CallEdge) bool { return e.Kind == an.EdgeCall && wr.inW(e.Callee) && !runsTask(e.Callee) }) {
-					m[h] = true
-				}
-				return m
-			}()) {
-				blocks = append(blocks, h.Blocks...)
-			}
-		}
+		// the handler is what the loop starts for an event: a goroutine started in the loop or in a helper
+		// the loop calls (a receive-and-dispatch step); failing that, a function called from the loop
+		// that runs the task
+		helperFns := map[*ssa.Function]bool{}
 		for _, b := range blocks {
 			for _, in := range b.Instrs {
-				ci, ok := in.(ssa.CallInstruction)
+				call, ok := in.(*ssa.Call)
 				if !ok {
 					continue
 				}
-				if _, isDefer := in.(*ssa.Defer); isDefer {
+				for _, callee := range p.Callees(&call.Call) {
+					if !wr.inW(callee) {
+						continue
+					}
+					for h := range p.Reach([]*ssa.Function{callee}, func(e an.CallEdge) bool { return e.Kind == an.EdgeCall && wr.inW(e.Callee) }) {
+						helperFns[h] = true
+					}
+				}
+			}
+		}
+		all := append([]*ssa.BasicBlock{}, blocks...)
+		for _, h := range sortedFns(helperFns) {
+			all = append(all, h.Blocks...)
+		}
+		for _, b := range all {
+			for _, in := range b.Instrs {
+				g, isGo := in.(*ssa.Go)
+				if !isGo {
 					continue
 				}
-				for _, callee := range p.Callees(ci.Common()) {
-					if wr.inW(callee) && runsTask(callee) {
-						if _, isGo := in.(*ssa.Go); isGo || wr.launch == nil {
+				for _, callee := range p.Callees(g.Common()) {
+					if wr.inW(callee) && runsTask(callee) && wr.launch == nil {
+						wr.launch, wr.handle = g, callee
+					}
+				}
+			}
+		}
+		if wr.launch == nil {
+			for _, b := range blocks {
+				for _, in := range b.Instrs {
+					ci, ok := in.(*ssa.Call)
+					if !ok {
+						continue
+					}
+					for _, callee := range p.Callees(ci.Common()) {
+						if wr.inW(callee) && runsTask(callee) && wr.launch == nil {
 							wr.launch, wr.handle = ci, callee
 						}
 					}
@@ -547,11 +585,61 @@ func registry(c *an.Ctx, wr *watchRoles, rule string) {
 			}
 		})
 	}
+	tbl := ""
+	if wr.opTable != nil {
+		tbl = "watch." + wr.opTable.Name()
+	}
+	if len(keys) == 0 && wr.opFn != nil {
+		// the table as a function: evaluate it for every fsnotify.Op constant (comparisons of its
+		// parameter with constants decide the path); an operation is named when every path returns
+		// one and the same non-empty constant
+		tbl = "watch." + wr.opFn.Name()
+		for _, k := range fsnotifyOps(p) {
+			k := k
+			ex := &an.Explorer{P: p, NoReturn: noReturn}
+			prm := wr.opFn.Params[0]
+			ex.Atom = func(v ssa.Value) (an.AVal, bool) {
+				bo, ok := v.(*ssa.BinOp)
+				if !ok || (bo.Op != token.EQL && bo.Op != token.NEQ) {
+					return an.AVal{}, false
+				}
+				x, y := bo.X, bo.Y
+				if _, isC := x.(*ssa.Const); isC {
+					x, y = y, x
+				}
+				kc, isK := an.ConstInt(y)
+				if !isK || !an.SameValue(x, prm) {
+					return an.AVal{}, false
+				}
+				return an.ABool((kc == k) == (bo.Op == token.EQL)), true
+			}
+			names := map[string]bool{}
+			opaque := false
+			for _, o := range ex.Run(wr.opFn, wr.opFn.Blocks[0], nil, nil) {
+				if o.End != "return" || len(o.RetVals) == 0 {
+					opaque = true
+					continue
+				}
+				if sname, ok := an.ConstString(o.RetVals[0]); ok {
+					names[sname] = true
+				} else {
+					opaque = true
+				}
+			}
+			if !opaque && len(names) == 1 {
+				for sname := range names {
+					if sname != "" {
+						keys[k] = true
+						vals[sname] = true
+					}
+				}
+			}
+		}
+	}
 	if len(keys) == 0 {
-		c.Und(rule, "watch:event-table", token.NoPos, "no package-level map[fsnotify.Op]string with constant entries was found in internal/watch")
+		c.Und(rule, "watch:event-table", token.NoPos, "no package-level map[fsnotify.Op]string with constant entries (nor a function from fsnotify.Op to constant names) was found in internal/watch")
 		return
 	}
-	tbl := "watch." + wr.opTable.Name()
 	// exported constants of fsnotify.Op
 	var missing []string
 	nOps := 0
@@ -668,6 +756,12 @@ func registry(c *an.Ctx, wr *watchRoles, rule string) {
 								if k, ok := mu.Value.(*ssa.Const); ok && k.Value != nil && k.Value.ExactString() == "true" {
 									okStore = true
 								}
+								// a set (map to the empty struct): membership is the subscription
+								if mt, ok := mu.Map.Type().Underlying().(*types.Map); ok {
+									if st, ok := mt.Elem().Underlying().(*types.Struct); ok && st.NumFields() == 0 {
+										okStore = true
+									}
+								}
 							}
 						}
 					}
@@ -701,6 +795,10 @@ func handler(c *an.Ctx, wr *watchRoles, rule string) {
 				if ok && wr.opTable != nil && isTable(lk.X) && an.FieldProv(st.Root(lk.Index)) == "Event.Op" {
 					return true
 				}
+				// the table as a function: its result for the event's operation
+				if call, isC := r.(*ssa.Call); isC && wr.opFn != nil && call.Call.StaticCallee() == wr.opFn && an.FieldProv(st.Root(call.Call.Args[0])) == "Event.Op" {
+					return true
+				}
 			}
 		}
 		return false
@@ -711,7 +809,7 @@ func handler(c *an.Ctx, wr *watchRoles, rule string) {
 	for _, sub := range []bool{true, false} {
 		sub := sub
 		ex := &an.Explorer{P: p, NoReturn: noReturn, MaxDepth: 3,
-			Inline: func(f *ssa.Function) bool { return wr.inW(f) && f != h }}
+			Inline: func(f *ssa.Function) bool { return wr.inW(f) && f != h && f != wr.opFn }}
 		ex.AtomSt = func(v ssa.Value, st *an.State) (an.AVal, bool) {
 			lk, ok := v.(*ssa.Lookup)
 			if e, isE := v.(*ssa.Extract); isE && !ok {
@@ -719,7 +817,7 @@ func handler(c *an.Ctx, wr *watchRoles, rule string) {
 					lk, ok = l2, true
 				}
 			}
-			if ok && an.FieldProv(lk.X) == "Watcher.events" && isName(lk.Index, st) {
+			if ok && (an.FieldProv(lk.X) == "Watcher.events" || an.FieldProv(st.Root(lk.X)) == "Watcher.events") && isName(lk.Index, st) {
 				tested = true
 				return an.ABool(sub), true
 			}
@@ -935,7 +1033,19 @@ func serving(c *an.Ctx, wr *watchRoles, rule string) {
 		c.Bad(rule, an.Short(run)+":go(handler)", run.Pos(), "events are not handled in their own goroutine: a long-running task blocks the delivery of later events")
 	} else {
 		c.OK(rule, an.Short(run)+":go(handler)", goHandle.Pos(), "each event is handled in its own goroutine")
-		addDonePairing(c, rule, "Watcher.eventsWg")
+		// the handlers' group: the WaitGroup(s) Watcher.Run waits on (found by what is waited on, not by name)
+		groups := map[string]bool{}
+		for f := range wr.syncRun {
+			for _, ci := range an.CallsIn(f, "(*sync.WaitGroup).Wait") {
+				groups[groupKey(ci.Common().Args[0])] = true
+			}
+		}
+		if len(groups) == 0 {
+			c.Bad(rule, an.Short(run)+":wait(handlers)", run.Pos(), "Watcher.Run does not wait for the handlers it started")
+		}
+		for _, k := range keys(groups) {
+			addDonePairing(c, rule, k)
+		}
 	}
 	if wr.evLoop != nil {
 		// loop exits
@@ -1078,4 +1188,41 @@ func closedOnly(p *an.Prog, wr *watchRoles, cond ssa.Value, outcome bool) bool {
 		}
 	}
 	return n > 0
+}
+
+// fsnotifyOpConsts lists the exported constants of type fsnotify.Op.
+func fsnotifyOpConsts(p *an.Prog) map[string]int64 {
+	out := map[string]int64{}
+	for _, ip := range p.Pkgs {
+		if ip.PkgPath != an.ModulePath+"/internal/watch" {
+			continue
+		}
+		for _, imp := range ip.Types.Imports() {
+			if imp.Path() != "github.com/fsnotify/fsnotify" {
+				continue
+			}
+			scope := imp.Scope()
+			for _, name := range scope.Names() {
+				k, ok := scope.Lookup(name).(*types.Const)
+				if !ok || !k.Exported() {
+					continue
+				}
+				if n, ok := k.Type().(*types.Named); !ok || n.Obj().Name() != "Op" {
+					continue
+				}
+				v, _ := constant.Int64Val(k.Val())
+				out[name] = v
+			}
+		}
+	}
+	return out
+}
+
+func fsnotifyOps(p *an.Prog) []int64 {
+	var out []int64
+	for _, v := range fsnotifyOpConsts(p) {
+		out = append(out, v)
+	}
+	sort.Slice(out, func(i, j int) bool { return out[i] < out[j] })
+	return out
 }
